@@ -116,6 +116,19 @@ func (w *c20World) apply(ev string) (cls, detail string) {
 		} else if err == nil {
 			return "failed-start-reported-success", "the pool refused the connect, Start returned nil"
 		}
+	case "failfirstupdate":
+		// the pool accepts the connect but rejects the first keep-alive of the start
+		w.sp.updateErr = errors.New("pool rejects the first update (injected)")
+		err := w.a.Start(w.sp)
+		c20Settle()
+		w.sp.updateErr = nil
+		if w.running {
+			if err != agent.ErrAlreadyStarted {
+				return "second-start-not-refused", fmt.Sprintf("Start while running returned %v", err)
+			}
+		} else if err == nil {
+			return "failed-start-reported-success", "the first keep-alive was rejected, Start returned nil"
+		}
 	case "failkeepalive":
 		w.failNext = true
 	}
@@ -146,7 +159,7 @@ func c20Loops() int {
 }
 
 func (w *c20World) events() []string {
-	evs := []string{"start", "update", "tick", "failconnect"}
+	evs := []string{"start", "update", "tick", "failconnect", "failfirstupdate"}
 	if w.running {
 		evs = append(evs, "stop")
 		if !w.failNext {
